@@ -597,6 +597,22 @@ func (t *Table) Delete(input *types.DeleteItemInput) (map[string]*types.Item, er
 	// running it multiple times on the same item or attribute does not result in an error response,
 	// therefore we do not need to check if the item exists.
 	item, ok := t.Data[key]
+
+	// support conditional writes
+	if input.ConditionExpression != nil {
+		_, matched := t.matchKey(QueryInput{
+			Index:                     PrimaryIndexName,
+			ExpressionAttributeValues: input.ExpressionAttributeValues,
+			Aliases:                   stringValueMap(input.ExpressionAttributeNames),
+			Limit:                     1,
+			ConditionExpression:       input.ConditionExpression,
+		}, t.getItem(key))
+
+		if !matched {
+			return nil, types.NewError("ConditionalCheckFailedException", ErrConditionalRequestFailed.Error(), nil)
+		}
+	}
+
 	if !ok {
 		return item, nil
 	}
@@ -671,6 +687,15 @@ func (t *Table) IndexesDescription() ([]types.GlobalSecondaryIndexDescription, [
 	}
 
 	return gsi, lsi
+}
+
+func stringValueMap(m map[string]*string) map[string]string {
+	out := make(map[string]string, len(m))
+	for k, v := range m {
+		out[k] = types.StringValue(v)
+	}
+
+	return out
 }
 
 func handleConditionalCheckError(input *types.UpdateItemInput, checkErr *types.ConditionalCheckFailedException, item map[string]*types.Item) {
